@@ -215,3 +215,24 @@ R.spec_funcs["same_d"] = lambda it, a, b: (a is None and b is None) if (a is Non
 # create_test (settings merge, seed, phases) is verified in C13's module; its clauses about the user's limits / about a test being built at all belong to this property too
 # (finding F05b): the same job runs as part of this check.
 SHARED_JOBS = [("C13", "schemathesis.generation.hypothesis.builder:create_test")]
+
+
+# ------------------------------------------------------------------------------------------------- EngineContext.has_to_stop / is_interrupted / has_reached_the_failure_limit: what the workers poll IS the control's state
+for _prop_name, _means in (("has_to_stop", "self.control.stop_event.flag or self.control.has_reached_the_failure_limit"), ("is_interrupted", "self.control.stop_event.flag"),
+                           ("has_reached_the_failure_limit", "self.control.has_reached_the_failure_limit")):
+    R.contract(
+        ECX + "." + _prop_name,
+        variant="definition",
+        prop="C12",
+        args={"self": E.Engine()},
+        raises=[],
+        ensures={"reads_the_controls_state": "iff(result, " + _means + ")"},
+    )
+R.contract(
+    ECX + ".stop",
+    variant="definition",
+    prop="C12",
+    args={"self": E.Engine()},
+    raises=[],
+    ensures={"a_stop_request_sets_the_stop_event": "self.control.stop_event.flag is True"},
+)
